@@ -81,6 +81,20 @@ Same(a, b) ==
        [] a.k \in {"dpath", "rdpath"} -> TRUE
        [] OTHER -> a.n = b.n
 
+\* Same, except that mappings are compared as unordered sets of (key, value) pairs: identity of
+\* a stored ARGUMENT (python dict equality ignores insertion order), still type-exact.
+RECURSIVE SameU(_, _)
+SameU(a, b) ==
+  /\ (a.k = b.k \/ {a.k, b.k} \subseteq {"dpath", "rdpath"})
+  /\ CASE a.k \in {"list", "tuple"} ->
+            Len(a.xs) = Len(b.xs) /\ \A i \in 1..Len(a.xs) : SameU(a.xs[i], b.xs[i])
+       [] a.k = "map" ->
+            Len(a.xs) = Len(b.xs) /\
+            \A i \in 1..Len(a.xs) : \E j \in 1..Len(b.xs) : SameU(a.xs[i][1], b.xs[j][1]) /\ SameU(a.xs[i][2], b.xs[j][2])
+       [] a.k = "str" -> a.xs = b.xs
+       [] a.k \in {"dpath", "rdpath"} -> TRUE
+       [] OTHER -> a.n = b.n
+
 (***************************************************************************)
 (* a < b, a <= b, a > b, a >= b                                            *)
 (***************************************************************************)
